@@ -4,6 +4,8 @@
   (every list of clock readings at which the sweep runs) and every handler instance.
 -/
 import PyIkev2.Proofs.Machine
+import PyIkev2.Proofs.HandlersStored
+import PyIkev2.Proofs.WholeSad2
 
 namespace PyIkev2.Props.C13
 open PyIkev2 PyIkev2.Impl
@@ -160,5 +162,63 @@ def demo : Sa :=
 
 example : (sweeps demo ((List.range 25).map fun i => i * tick + 1)).2.length = 3 ∧
     (sweeps demo ((List.range 25).map fun i => i * tick + 1)).1.core.st = stDELETED := by decide
+
+/-! ### what is retransmitted is what was sent, for the concrete handlers
+
+  The timer sends `self.request` again (`checkRetransmission`: `out := s.core.request`).  That this is the request the IKE_SA last sent —
+  in particular after a COOKIE or INVALID_KE_PAYLOAD retry, where the request is rebuilt — is a fact about every handler and every
+  generator: whatever returns a request to the shell has stored exactly that request (Proofs/HandlersStored.lean). -/
+
+theorem runOn_request_stored (w : XWorld) (s : Sa) (h : HM HRes) (hst : ResStored h) (r : Msg) (hr : (runOn w s h).2.res = HRes.request r) :
+    (runOn w s h).2.sa.core.request = some r := by
+  rw [(runOn_sa w s h).1]
+  cases hq : h (startAny w s) with
+  | mk x t =>
+    cases x with
+    | ok v =>
+      rw [runOn_res_ok w s h v t hq] at hr
+      simp only [hq]
+      exact hst.ok _ v t trivial hq r hr
+    | error e =>
+      have := runOn_res_err w s h e t hq
+      rw [hr] at this
+      cases this
+
+/-- a response handler that makes the IKE_SA send a (new or retried) request has stored that request -/
+theorem c13_concrete_response_sends_what_it_stores (w : XWorld) (s : Sa) (now : Nat) (m : Msg) (w' : XWorld) (o : HOut) (r : Msg)
+    (h : concreteHandlers.resp w s now m = (w', some o)) (hr : o.res = HRes.request r) : o.sa.core.request = some r := by
+  simp only [concreteHandlers] at h
+  split at h
+  · rename_i hd hh
+    have ho : o = (runOn w s hd).2 := by cases h; rfl
+    subst ho
+    exact runOn_request_stored w s hd (responseHandler_st now m hd hh) r hr
+  · cases h
+
+/-- every request generator (ACQUIRE, EXPIRE, DPD, hard lifetime, rekey timer) has stored the request it returns -/
+theorem c13_concrete_generators_send_what_they_store (w : XWorld) (s : Sa) (now : Nat) (a b : TS) (idx : Nat) (ch : ChildRef)
+    (hard : Bool) (r : Msg) :
+    ((concreteHandlers.genAcquire w s now a b idx).2.res = HRes.request r → (concreteHandlers.genAcquire w s now a b idx).2.sa.core.request = some r) ∧
+    ((concreteHandlers.genExpire w s now ch hard).2.res = HRes.request r → (concreteHandlers.genExpire w s now ch hard).2.sa.core.request = some r) ∧
+    ((concreteHandlers.genDpd w s now).2.res = HRes.request r → (concreteHandlers.genDpd w s now).2.sa.core.request = some r) ∧
+    ((concreteHandlers.genDeleteIke w s now).2.res = HRes.request r → (concreteHandlers.genDeleteIke w s now).2.sa.core.request = some r) ∧
+    ((concreteHandlers.genRekeyIke w s now).2.res = HRes.request r → (concreteHandlers.genRekeyIke w s now).2.sa.core.request = some r) :=
+  ⟨runOn_request_stored w s _ (res_of_gen (genAcquireH_st a b idx)) r,
+   runOn_request_stored w s _ (res_of_gen (genExpireH_st ch hard)) r,
+   runOn_request_stored w s _ (res_of_gen generateDpdRequest_st) r,
+   runOn_request_stored w s _ (res_of_gen generateDeleteIkeSaRequest_st) r,
+   runOn_request_stored w s _ (res_of_gen (generateRekeyIkeSaRequest_st now)) r⟩
+
+/-- … so that, whatever `_process_response` of the whole model sends as a request, the retransmission timer repeats exactly that -/
+theorem c13_concrete_retransmission_is_the_request_sent (w : XWorld) (s : Sa) (now : Nat) (m : Msg) (w' : XWorld) (o : HOut) (r : Msg)
+    (h : concreteHandlers.resp w s now m = (w', some o)) (hr : o.res = HRes.request r) (later : Nat)
+    (hw : waiting (sendRequest o.sa now r).core.st = true) (hd : (sendRequest o.sa now r).core.rtxAt < later)
+    (hb : (sendRequest o.sa now r).core.rtx < MAX_RETRANSMISSIONS) :
+    (checkRetransmission (sendRequest o.sa now r) later).out = some r := by
+  have hst := c13_concrete_response_sends_what_it_stores w s now m w' o r h hr
+  have hreq : (sendRequest o.sa now r).core.request = some r := hst
+  unfold checkRetransmission
+  rw [if_pos hw, if_pos hd, if_neg (Nat.not_le.mpr hb)]
+  exact hreq
 
 end PyIkev2.Props.C13
